@@ -35,6 +35,7 @@ type Controller struct {
 	Steps     int
 	// Contention statistics
 	LockBusyYields int
+	PoolLockBusy   int
 	maxSteps       int
 }
 
@@ -79,6 +80,32 @@ func (c *Controller) BeforeLock(mu *sync.Mutex) {
 			return
 		}
 		c.LockBusyYields++
+		c.Yield("lock-busy")
+	}
+}
+
+// BeforeRWLock is the pool-lock hook: yields once, then probes the lock and yields "lock busy" while it cannot be
+// taken in the requested mode.
+func (c *Controller) BeforeRWLock(mu *sync.RWMutex, write bool) {
+	if c.cur == nil {
+		return
+	}
+	if write {
+		// A switch before a read lock adds nothing over the switch points around it; a read lock is only probed.
+		c.Yield("before-pool-lock")
+	}
+	for {
+		if write {
+			if mu.TryLock() {
+				mu.Unlock()
+				return
+			}
+		} else if mu.TryRLock() {
+			mu.RUnlock()
+			return
+		}
+		c.LockBusyYields++
+		c.PoolLockBusy++
 		c.Yield("lock-busy")
 	}
 }
